@@ -345,6 +345,42 @@ func c16Apply(p pair, st c16Step) (msg string, bothPanicked bool) {
 			retZ = z
 		}
 		fm = func() { retM = m }
+	case "UnmarshalText", "UnmarshalJSON":
+		// error parity and value parity with math/big (which parses these texts with base 0)
+		var ez, em error
+		fz = func() {
+			if st.Op == "UnmarshalText" {
+				ez = z.UnmarshalText([]byte(st.S))
+			} else {
+				ez = z.UnmarshalJSON([]byte(st.S))
+			}
+			retZ = z
+		}
+		fm = func() {
+			if st.Op == "UnmarshalText" {
+				em = m.UnmarshalText([]byte(st.S))
+			} else {
+				em = m.UnmarshalJSON([]byte(st.S))
+			}
+			retM = m
+		}
+		if pz, pm := run(fz), run(fm); pz != "" || pm != "" {
+			if (pz != "") != (pm != "") {
+				return fmt.Sprintf("panic parity: BigInt panic=%q, big.Int panic=%q", pz, pm), false
+			}
+			return "", true
+		}
+		if (ez == nil) != (em == nil) {
+			return fmt.Sprintf("%s(%q): BigInt error %v, big.Int error %v", st.Op, st.S, ez, em), false
+		}
+		if ez != nil {
+			// after a failed parse math/big leaves the receiver undefined
+			return "", true
+		}
+		if msg := c16Observe(z, m); msg != "" {
+			return "receiver: " + msg, false
+		}
+		return "", false
 	case "Scan":
 		fz = func() {
 			if _, err := fmt.Sscan(st.S, z); err != nil {
@@ -634,6 +670,10 @@ func c16Steps(idx []int, full bool) []c16Step {
 			out = append(out, c16Step{Op: "SetMathBigInt", N: int64(i)})
 		}
 	}
+	for _, t := range []string{"0", "12", "-7", "0x1F", "0X1f", "0755", "08", "1_000", "0b101", "-0o17", "+5", "", " 1", "1e3", "340282366920938463463374607431768211456", "-0x10000000000000000"} {
+		out = append(out, c16Step{Op: "UnmarshalText", S: t}, c16Step{Op: "UnmarshalJSON", S: t})
+	}
+	out = append(out, c16Step{Op: "UnmarshalJSON", S: "null"}, c16Step{Op: "UnmarshalJSON", S: "\"12\""})
 	return out
 }
 
